@@ -920,6 +920,7 @@ type replayFile struct {
 	Policy         string          `json:"policy"`
 	Minimised      bool            `json:"minimised"`
 	Reproduced     bool            `json:"reproduced"`
+	ReplayEnv      []string        `json:"replay_env,omitempty"`
 	RaceBuild      bool            `json:"race_build"`
 	Steps          uint64          `json:"steps"`
 	Tape           tape            `json:"tape"`
@@ -972,16 +973,23 @@ func writeReplay(sc *scratch, id, tier string, v *violationRec) string {
 		env = []string{"GORACE=log_path=" + filepath.Join(sc.dir, "replay-race") + " halt_on_error=0 exitcode=0", "VERIF_RACE_LOG=" + filepath.Join(sc.dir, "replay-race")}
 	}
 	check := func() bool {
-		for t := 0; t < tries; t++ {
-			outp := filepath.Join(sc.dir, "replay-result.json")
-			res := runWorker(bin, env, 5*time.Minute, 16<<20, "replay", "-file", path, "-out", outp)
-			if res.err != nil {
-				continue
-			}
-			var rr violationRec
-			b, _ := os.ReadFile(outp)
-			if json.Unmarshal(b, &rr) == nil && rr.Violation != nil && rr.Class == v.Class {
-				return true
+		// a changed library may carry a nondeterminism source the simulator does not
+		// own (sync.Pool, for one, behaves per-P): the second attempt pins GOMAXPROCS=1
+		for _, extra := range [][]string{nil, {"GOMAXPROCS=1"}} {
+			for t := 0; t < tries; t++ {
+				outp := filepath.Join(sc.dir, "replay-result.json")
+				res := runWorker(bin, append(append([]string(nil), env...), extra...), 5*time.Minute, 16<<20, "replay", "-file", path, "-out", outp)
+				if res.err != nil {
+					continue
+				}
+				var rr violationRec
+				b, _ := os.ReadFile(outp)
+				if json.Unmarshal(b, &rr) == nil && rr.Violation != nil && rr.Class == v.Class {
+					if extra != nil {
+						rf.ReplayEnv = extra
+					}
+					return true
+				}
 			}
 		}
 		return false
@@ -994,7 +1002,7 @@ func writeReplay(sc *scratch, id, tier string, v *violationRec) string {
 		write()
 		rf.Reproduced = check()
 		if !rf.Reproduced {
-			fmt.Fprintf(os.Stderr, "verifctl: SIMULATOR DETERMINISM FAILURE: replay of run %d does not reproduce %s in a fresh process\n", v.Run, v.Class)
+			fmt.Fprintf(os.Stderr, "verifctl: replay of run %d does not reproduce %s in a fresh process: the violation was observed, but it depends on state left behind by earlier runs of the worker process, on a nondeterminism source inside the (changed) library that the simulator does not own (sync.Pool, the global rand source, ...), or on a simulator determinism failure; the replay file is marked reproduced=false\n", v.Run, v.Class)
 		}
 	}
 	write()
@@ -1026,6 +1034,7 @@ func cmdReplay(args []string) int {
 		bin = sc.workerRace
 		env = []string{"GORACE=log_path=" + filepath.Join(sc.dir, "replay-race") + " halt_on_error=0 exitcode=0", "VERIF_RACE_LOG=" + filepath.Join(sc.dir, "replay-race")}
 	}
+	env = append(env, rf.ReplayEnv...)
 	outp := filepath.Join(sc.dir, "replay-result.json")
 	res := runWorker(bin, env, 10*time.Minute, 16<<20, "replay", "-file", path, "-out", outp)
 	if res.err != nil {
